@@ -186,8 +186,15 @@ theorem goNum_ok (ds : Str) (hne : ds ≠ []) (hd : ∀ c ∈ ds, isDigit c = tr
   rw [readNat_dropLast ds hne hd, if_neg (by omega)]
 
 /-- fmt's limit on the numbers of a directive: `parsenum` gives up once the digits read so far exceed 10^6 -/
-def NumOK (f : Fmt) : Prop :=
-  (∀ w, f.width = some w → w / 10 ≤ 1000000) ∧ (∀ p, f.prec = some p → p / 10 ≤ 1000000)
+def NumOK (f : Fmt) : Prop := f.width.getD 0 / 10 ≤ 1000000 ∧ f.prec.getD 0 / 10 ≤ 1000000
+
+instance (f : Fmt) : Decidable (NumOK f) := by unfold NumOK; infer_instance
+
+theorem NumOK.width {f : Fmt} (h : NumOK f) (w : Nat) (hw : f.width = some w) : w / 10 ≤ 1000000 := by
+  have := h.1; rw [hw] at this; exact this
+
+theorem NumOK.prec {f : Fmt} (h : NumOK f) (p : Nat) (hp : f.prec = some p) : p / 10 ≤ 1000000 := by
+  have := h.2; rw [hp] at this; exact this
 
 theorem filter_id_of_all {p : Char → Bool} : ∀ (l : Str), (∀ c ∈ l, p c = true) → l.filter p = l
   | [], _ => rfl
@@ -267,7 +274,7 @@ theorem parseFormat_goOK (orig : Str) (sep sep2 : Option Str) (f : Fmt) (h : par
     · simp [he]
     · have hne : wd ≠ [] := by intro h'; rw [h'] at he; simp at he
       simp only [he, Bool.false_eq_true, if_false]
-      rw [goNum_ok wd hne hwd_digits (hn.1 _ (by rw [hwidth, hwd]; simp [he]))]
+      rw [goNum_ok wd hne hwd_digits (hn.width _ (by rw [hwidth, hwd]; simp [he]))]
       rfl
   unfold GoOK
   rw [hgf]
@@ -295,7 +302,7 @@ theorem parseFormat_goOK (orig : Str) (sep sep2 : Option Str) (f : Fmt) (h : par
     have hpp : goPrecPart r2 = (some (some (readNat pd)), [p.letter]) := by
       rw [h2]; unfold goPrecPart
       simp only [htk2, hdr2, hpe, Bool.false_eq_true, if_false]
-      rw [goNum_ok pd hpdne hpd (hn.2 _ (by rw [hprec, hp2]))]
+      rw [goNum_ok pd hpdne hpd (hn.prec _ (by rw [hprec, hp2]))]
       rfl
     simp only [hpp]
     refine ⟨hletter.symm, trivial, by rw [hprec, hp2], ?_, ?_, ?_, ?_⟩
